@@ -351,6 +351,8 @@ class Module:
             out.append(c)
             bases = []
             for b in self.classes[c].bases:
+                if isinstance(b, ast.Subscript):
+                    b = b.value          # Generic[T] / Base[str]: the subscripted class
                 if isinstance(b, ast.Name):
                     bases.append(b.id)
                 elif isinstance(b, ast.Attribute):
